@@ -809,7 +809,7 @@ class PathLossGeneral(PathLossOutdoorBase):
         if isinstance(d, Iterable):
             log10 = np.log10
         else:
-            log10 = math.log10
+            log10 = np.log10
 
         PL = (10 * self._n * log10(d)) + self._C
         return cast(NumberOrArray, PL)
@@ -1240,7 +1240,7 @@ class PathLossMetisPS7(PathLossIndoorBase):
         if isinstance(d, Iterable):
             log10 = np.log10
         else:
-            log10 = math.log10
+            log10 = np.log10
 
         # LOS parameters
         A = 18.7
@@ -1293,7 +1293,7 @@ class PathLossMetisPS7(PathLossIndoorBase):
         if isinstance(d, Iterable):
             log10 = np.log10
         else:
-            log10 = math.log10
+            log10 = np.log10
 
         # NLOS parameters
         A = 36.8
@@ -1625,7 +1625,7 @@ class PathLossOkomuraHata(PathLossOutdoorBase):
         if isinstance(d, Iterable):
             log10 = np.log10
         else:
-            log10 = math.log10
+            log10 = np.log10
 
         # noinspection PyTypeChecker
         if np.any(d < 1.0) or np.any(d > 20.0):
